@@ -21,6 +21,8 @@
 //      ret-address:<op>      the returned address is not the documented position inside the handle's buffer
 //      used-gt-size, slice-window   accounting invariants (_used <= _size, slice inside the used data)
 //      immutable-modified:<op>  a buffer created with BufferImmutable changed while a handle still holds it
+//      refused-by-state:<op>    append/insert/set/slice/reserve/printf refused on a handle, but the same call with the same
+//                               arguments is accepted on a private, mutable, roomy array holding the same bytes (round 4)
 //    Refusal is always allowed (DESIGN sect. 4); all handles are released at the end (leak check on).
 // Scenario 2 (1 of 4 cases): C++ API (public members only), same oracle classes with the prefix "cxx-":
 //    bytes:  mpt::array {set, append, insert, prepend, =array, =iovec, +=iovec, +=span, +=content, =slice, printf, string} and
@@ -190,6 +192,32 @@ struct World {
     if (c.verbose()) for (int i = 0; i < NH; i++) if (h[i].buf() || h[i].kind != KArray) c.logf("      %s", desc(i).c_str());
   }
 
+  // ---------------------------------------------------------------- metamorphic rule for refusals
+  // A call that was refused on a handle is repeated with the same arguments on a "twin": a fresh array of the same
+  // content type with the same bytes, held by nobody else, mutable, with plenty of room. Whether an array-level
+  // operation is possible may depend on its arguments and on the content, not on who else holds the buffer, on its
+  // flags or on the slack of the allocation (the array calls exist to hide exactly that: they grow / detach as
+  // needed). The twin accepting what the handle refused is reported as refused-by-state:<op>.
+  // Exempt (documented state dependent refusal): a buffer flagged NoCopy that is shared cannot be detached (ENOTSUP).
+  template <typename F> void twin_check(const char *op, int i, F call) {
+    CBuf *b = h[i].buf();
+    if (!b || h[i].kind != KArray) return;
+    uint32_t fl = flags(b);
+    if ((fl & BufferNoCopy) && sharers(b) > 1) { c.label("twin:exempt-nocopy"); return; }
+    CBuf *tb = reinterpret_cast<CBuf *>(_mpt_buffer_alloc(b->used + 1024, 0));
+    VP_CHECK(c, tb && tb->size >= b->used + 1024, "alloc-failed", "_mpt_buffer_alloc(%zu) for the twin", b->used + 1024);
+    tb->traits = b->traits;
+    if (b->used) memcpy(tb->data(), b->data(), b->used);
+    tb->used = b->used;
+    CObj<array> ta;
+    cbuf(ta.get()) = tb;
+    bool accepted = call(ta.get());
+    c.logf("    twin (private, mutable, %zu bytes, size %zu): %s", b->used, tb->size, accepted ? "accepted" : "refused");
+    mpt_array_clone(ta.get(), 0);
+    c.label(accepted ? "twin:accepted" : "twin:refused");
+    VP_CHECK(c, !accepted, tag("refused-by-state", op), "%s was refused on %s but the same call is accepted on a private mutable array with the same %zu bytes and more room", op, desc(i).c_str(), b->used);
+  }
+
   // ---------------------------------------------------------------- operations
   void release(int i, const char *op) {
     Handle &x = h[i];
@@ -230,6 +258,7 @@ struct World {
     }
     outcome("append", r);
     verify("append", i, !r);
+    if (!r) twin_check("append", i, [&](array *a) { return mpt_array_append(a, len, zero ? 0 : d.data()) != 0; });
   }
 
   void op_insert() {
@@ -257,6 +286,7 @@ struct World {
     }
     outcome("insert", r);
     verify("insert", i, !r);
+    if (!r) twin_check("insert", i, [&](array *a) { return mpt_array_insert(a, pos, len) != 0; });
   }
 
   void op_set() {
@@ -291,6 +321,7 @@ struct World {
     }
     outcome("set", r);
     verify("set", i, !r);
+    if (!r) twin_check("set", i, [&](array *a) { return mpt_array_set(a, t, len, zero ? 0 : d.data(), off) != 0; });
   }
 
   void op_slice() {
@@ -321,6 +352,7 @@ struct World {
     }
     outcome("slice", r);
     verify("slice", i, !r);
+    if (!r) twin_check("slice", i, [&](array *a) { return mpt_array_slice(a, off, len) != 0; });
   }
 
   void op_reserve() {
@@ -342,9 +374,10 @@ struct World {
       read(i, got, "reserve");
       size_t es = esz(t), alen = len % es ? len + es - len % es : len;
       bool same = !b || bt == t;
-      // content: kept; or cut to the reserved length (both readings of "reserve" occur in the code); a type change
-      // or a buffer that must not be copied starts empty (documented: "clear incompatible data")
-      bool ok = got == x.m || (same && alen < x.m.size() && got == std::vector<uint8_t>(x.m.begin(), x.m.begin() + alen)) || ((!same || (fl & BufferNoCopy)) && got.empty());
+      // content: kept, as a vector's reserve keeps it whatever the requested size is. Only a type change or a shared
+      // buffer that must not be copied starts empty (documented: "clear incompatible data", "copy compatible content")
+      (void)alen;
+      bool ok = got == x.m || ((!same || ((fl & BufferNoCopy) && (p.shared || p.immutable))) && got.empty());
       if (!ok) mismatch("target-mismatch", "reserve", i, i, got);
       if (got != x.m) c.label(got.empty() ? "reserve:cleared" : "reserve:cut");
       x.m = got;
@@ -352,6 +385,7 @@ struct World {
     }
     outcome("reserve", r);
     verify("reserve", i, !r);
+    if (!r) twin_check("reserve", i, [&](array *a) { return mpt_array_reserve(a, len, t) != 0; });
   }
 
   void op_clone() {
@@ -612,12 +646,21 @@ struct World {
     Pre p = pre(i, L >= avail);
     static const char *kFmt[] = {"%s", "%d", "%*s", "[%s|%d]"};
     c.logf("  %s(h%d, \"%s\", length parameter %zu)   [%s]", via ? "mpt_vprintf" : "mpt_printf", i, kFmt[variant], L, desc(i).c_str());
+    auto print = [&](array *a) -> int {
+      switch (variant) {
+        case 0: return via ? vcall(a, "%s", s.c_str()) : mpt_printf(a, "%s", s.c_str());
+        case 1: return via ? vcall(a, "%d", v) : mpt_printf(a, "%d", v);
+        case 2: return via ? vcall(a, "%*s", w, s.c_str()) : mpt_printf(a, "%*s", w, s.c_str());
+        default: return via ? vcall(a, "[%s|%d]", s.c_str(), v) : mpt_printf(a, "[%s|%d]", s.c_str(), v);
+      }
+    };
     switch (variant) {
-      case 0: s = text(L); n = snprintf(want, sizeof want, "%s", s.c_str()); r = via ? vcall(a, "%s", s.c_str()) : mpt_printf(a, "%s", s.c_str()); break;
-      case 1: v = (int)c.u32(); n = snprintf(want, sizeof want, "%d", v); r = via ? vcall(a, "%d", v) : mpt_printf(a, "%d", v); break;
-      case 2: w = (int)L; s = text(c.range(0, 5)); n = snprintf(want, sizeof want, "%*s", w, s.c_str()); r = via ? vcall(a, "%*s", w, s.c_str()) : mpt_printf(a, "%*s", w, s.c_str()); break;
-      default: v = (int)c.u8() - 100; s = text(L); n = snprintf(want, sizeof want, "[%s|%d]", s.c_str(), v); r = via ? vcall(a, "[%s|%d]", s.c_str(), v) : mpt_printf(a, "[%s|%d]", s.c_str(), v); break;
+      case 0: s = text(L); n = snprintf(want, sizeof want, "%s", s.c_str()); break;
+      case 1: v = (int)c.u32(); n = snprintf(want, sizeof want, "%d", v); break;
+      case 2: w = (int)L; s = text(c.range(0, 5)); n = snprintf(want, sizeof want, "%*s", w, s.c_str()); break;
+      default: v = (int)c.u8() - 100; s = text(L); n = snprintf(want, sizeof want, "[%s|%d]", s.c_str(), v); break;
     }
+    r = print(a);
     c.logf("    = %d, the formatted text has %d characters", r, n);
     if (r >= 0) {
       x.m.insert(x.m.end(), want, want + n);
@@ -626,6 +669,7 @@ struct World {
     }
     outcome("printf", r >= 0);
     verify("printf", i, r < 0);
+    if (r < 0) twin_check("printf", i, [&](array *ta) { return print(ta) >= 0; });
   }
 
   void op_string() {
